@@ -75,6 +75,35 @@ def load_known() -> list[dict]:
     return data.get("findings", [])
 
 
+def _downgrade_outside_idioms(rep: Report) -> None:
+    """Three-valued discipline (DESIGN §0): a refutation is only believed when the evaluator could read the construct.  A function that
+    contains a general `while` loop (not the one peeling idiom the evaluator knows) is outside its accepted statement set: its loop-carried
+    values are havoc, so a mismatch reported for it is a recognition failure (UNKNOWN -> exit 2), never a VIOLATION."""
+    import ast
+
+    model = getattr(rep, "model", None)
+    if model is None:
+        return
+    for ob in rep.obligations:
+        if ob.verdict != REFUTED:
+            continue
+        mod, _, rest = ob.construct.partition(":")
+        qual = rest.split("#")[0]
+        f = model.functions.get(f"{mod}.{qual}")
+        if f is None:
+            continue
+        whiles = [n for n in ast.walk(f.node) if isinstance(n, ast.While)]
+        general = []
+        for w in whiles:
+            t = w.test
+            peel = (isinstance(t, ast.Call) and isinstance(t.func, ast.Name) and t.func.id == "isinstance" and len(w.body) == 1 and isinstance(w.body[0], ast.Assign))
+            if not peel:
+                general.append(w)
+        if general:
+            ob.verdict = UNKNOWN
+            ob.detail = f"the function contains a general while loop (line {general[0].lineno}), which is outside the evaluator's accepted statement set; reported mismatch not believed: " + ob.detail[:300]
+
+
 def finish(rep: Report, seed: int = 0) -> int:
     """Print the per-obligation lines, write evidence, return the exit code."""
     all_known = [k for k in load_known() if k.get("status") == "known"]
@@ -88,6 +117,7 @@ def finish(rep: Report, seed: int = 0) -> int:
     dep_known = []
     unknown_required = []
     seen_keys = set()
+    _downgrade_outside_idioms(rep)
     for ob in rep.obligations:
         line = f"{ob.verdict:8s} {ob.rule:7s} {ob.construct}  {ob.loc}"
         if ob.verdict != PROVEN and ob.detail:
